@@ -93,6 +93,7 @@ def expected(prev, it):
 class Check(PropCheck):
     id = 'C10'
     stream = 'C10'
+    extra_modules = ('AHP.Props.C10Code',)       # StyleAttribute's methods themselves, interpreted in Lean, = the hand model Attrs
     exhaustive_in = ('quick', 'thorough')
     rule = ('histories of style writes (style.<camelCase>=, style.setProperty, setStyle, setStyles, style = string, style = other '
             "element's style, setAttribute/removeAttribute('style'), attributes['style']=/del) over 6 properties (3 single-word, 3 "
